@@ -1195,6 +1195,24 @@ func vsGen(r *vu.Rng, size int) *vsCluster {
 	if r.Chance(2, 3) {
 		vsCohere(r, c)
 	}
+	// two HTTPS listeners whose certificates live in one foreign namespace, of which a ReferenceGrant names only the first
+	if len(c.Gateways) > 0 && c.Gateways[0].Class == vpClassName && r.Chance(1, 8) {
+		g := &c.Gateways[0]
+		x := "team-b"
+		if g.NS == x {
+			x = "team-a"
+		}
+		g.Listeners = append(g.Listeners,
+			vsListener{Name: "l-xa", Host: vsPtr("xa.example.com"), Port: 8445, Proto: "HTTPS", Cert: &vsCertRef{NS: vsPtr(x), Name: "cert-xa"}, From: "All"},
+			vsListener{Name: "l-xb", Host: vsPtr("xb.example.com"), Port: 8445, Proto: "HTTPS", Cert: &vsCertRef{NS: vsPtr(x), Name: "cert-xb"}, From: "All"})
+		c.Secrets = append(c.Secrets, vsSecret{NS: x, Name: "cert-xa", OK: true}, vsSecret{NS: x, Name: "cert-xb", OK: true})
+		c.Grants = append(c.Grants, vsGrant{NS: x, Name: "grant-xa", From: []vsGrantFrom{{Group: "gateway.networking.k8s.io", Kind: "Gateway", NS: g.NS}},
+			To: []vsGrantTo{{Group: "", Kind: "Secret", Name: vsPtr("cert-xa")}}})
+		if r.Bool() {
+			c.Routes = append(c.Routes, vsRoute{NS: g.NS, Name: "r-x", TS: 2, Parents: []vsParentRef{{Name: g.Name}}, Hosts: []string{"xa.example.com", "xb.example.com"},
+				Rules: []vsRule{{Matches: []vsMatch{{Path: "/x"}}, Backends: []vsBackend{{Name: "svc-a", Port: 80, Weight: 1}}}}})
+		}
+	}
 	return c
 }
 
